@@ -279,6 +279,8 @@ class StubSim(mosaik_api_v3.Simulator):
             return -1
         if kind == "frac":
             return time + 1.5
+        if kind == "bool":
+            return True          # a bool is not a time (although Python counts it as an int)
         if kind == "npfrac":
             import numpy
             return numpy.float64(time + 1.5)     # a numpy scalar that is not a whole number
